@@ -56,7 +56,7 @@ pub fn run(a: &Args) {
     let mut out = Out::new(&a.out, a.shards);
     let mut st = Stats::default();
     let mut gen = 0u64;
-    if let Some(p) = &a.cases {
+    if let Some(p) = a.cases.first() {
         for line in std::io::BufReader::new(std::fs::File::open(p).unwrap()).lines() {
             let v: Value = serde_json::from_str(&line.unwrap()).unwrap();
             let text: String = v["s"].as_array().unwrap().iter().map(|c| char::from_u32(c.as_u64().unwrap() as u32).unwrap()).collect();
